@@ -76,7 +76,7 @@ def sdo_jobs(h, quick):
 PROPS["C04"] = {
     "level": "model_checking",
     "technique": "explicit-state BFS over the full SDO command alphabet against the real server with an allowed-set reference server",
-    "text": 'BFS over the real SDO server(s) with an alphabet of ~630 request frames (all 256 command bytes; initiate requests of every kind to every object class incl. missing index/sub-index, RO/WO, node-id relative, domains smaller/larger than the buffer, strings, range- and user-abort types, with size fields =,<,>,0; acknowledges for all ackseq x blksize classes), in lockstep with a reference server that yields the set of admissible responses per protocol state. Per step: number of response frames, multiplexer, abort code, toggle/size/last flags, data, and the complete dictionary image are compared. The scaled-buffer build (3 segments) is explored to a fixpoint under a coarse state identity; fine state identity to depth 2-3; a "residue" state identity that keeps the cursors, counters and flags finished transfers leave behind (only buffer bytes and multiplexer dropped) to depth 5 (quick) / 8 or the deadline (thorough); the real 127-segment buffer and a two-server build to a depth bound. The dictionary holds 1010h with two parameter groups (reset types communication and node) whose NVM images differ from RAM: no SDO access may load them. Refusals that come from the type of the object written - 0604 0043h of the heartbeat consumer 1016h, 0604 0041h/0042h of the PDO mapping records - are decided by the C11 and C14 explorations (two consumer tables, PDO pair #0 and the mapping-procedure enumeration c14map), which are part of this check. In the two-server build the COB-IDs of the second server (1201h) are writable and stored in a third parameter group.',
+    "text": 'BFS over the real SDO server(s) with an alphabet of ~630 request frames (all 256 command bytes; initiate requests of every kind to every object class incl. missing index/sub-index, RO/WO, node-id relative, domains smaller/larger than the buffer, strings, a string entry flagged writable although its type has no write function, range- and user-abort types, with size fields =,<,>,0; acknowledges for all ackseq x blksize classes), in lockstep with a reference server that yields the set of admissible responses per protocol state. Per step: number of response frames, multiplexer, abort code, toggle/size/last flags, data, and the complete dictionary image are compared. The scaled-buffer build (3 segments) is explored to a fixpoint under a coarse state identity; fine state identity to depth 2-3; a "residue" state identity that keeps the cursors, counters and flags finished transfers leave behind (only buffer bytes and multiplexer dropped) to depth 5 (quick) / 8 or the deadline (thorough); the real 127-segment buffer and a two-server build to a depth bound. The dictionary holds 1010h with two parameter groups (reset types communication and node) whose NVM images differ from RAM: no SDO access may load them. Refusals that come from the type of the object written - 0604 0043h of the heartbeat consumer 1016h, 0604 0041h/0042h of the PDO mapping records - are decided by the C11 and C14 explorations (two consumer tables, PDO pair #0 and the mapping-procedure enumeration c14map), which are part of this check. In the two-server build the COB-IDs of the second server (1201h) are writable and stored in a third parameter group.',
     "note": 'coarse state identity zeroes fields the next initiate re-initialises (assumed dead; cross-checked by the fine explorations to their depth); application data is rewritten to its initial value whenever all servers are idle; requests in block-download phases are judged as segments (CiA 301 cannot tell them apart); out-of-protocol non-initiate requests only need exactly one answer',
     "jobs": {"quick": sdo_jobs("c04", True), "thorough": sdo_jobs("c04", False)},
 }
